@@ -29,8 +29,9 @@ SRC = "direct/data/mri_transforms.py"
 KEYS = {"KspaceKey.KSPACE": "Kspace", "KspaceKey.MASKED_KSPACE": "MaskedKspace", "TransformKey.KSPACE": "Kspace", "TransformKey.MASKED_KSPACE": "MaskedKspace", "TransformKey.TARGET": "Target",
         "TransformKey.SENSITIVITY_MAP": "SensMap", "TransformKey.SCALING_FACTOR": "ScalingFactor", "TransformKey.ACS_MASK": "AcsMask", "TransformKey.SAMPLING_MASK": "SamplingMask",
         "'sampling_mask'": "SamplingMask", "'acs_mask'": "AcsMask", "'padding'": "Padding", "'kspace'": "Kspace", "'masked_kspace'": "MaskedKspace", "'target'": "Target", "'sensitivity_map'": "SensMap", "'scaling_factor'": "ScalingFactor"}
-PYKEY = {"kspace": "Kspace", "masked_kspace": "MaskedKspace", "target": "Target", "sensitivity_map": "SensMap", "sampling_mask": "SamplingMask", "acs_mask": "AcsMask", "padding": "Padding", "scaling_factor": "ScalingFactor", "body_coil_image": "BodyCoil", "is_ssl": "IsSSL"}
-KEY_IDX = {"Kspace": 0, "MaskedKspace": 1, "Target": 2, "SensMap": 3, "SamplingMask": 4, "AcsMask": 5, "Padding": 6, "ScalingFactor": 7, "BodyCoil": 8, "IsSSL": 9}
+SSL_KEYS = {"SSLTransformMaskPrefixes.INPUT_ + TransformKey.MASKED_KSPACE": "InputMaskedKspace", "SSLTransformMaskPrefixes.TARGET_ + TransformKey.MASKED_KSPACE": "TargetMaskedKspace", "'input_kspace'": "InputKspace"}
+PYKEY = {"input_sampling_mask": "InputMask", "target_sampling_mask": "TargetMask", "input_masked_kspace": "InputMaskedKspace", "target_masked_kspace": "TargetMaskedKspace", "input_kspace": "InputKspace", "kspace": "Kspace", "masked_kspace": "MaskedKspace", "target": "Target", "sensitivity_map": "SensMap", "sampling_mask": "SamplingMask", "acs_mask": "AcsMask", "padding": "Padding", "scaling_factor": "ScalingFactor", "body_coil_image": "BodyCoil", "is_ssl": "IsSSL"}
+KEY_IDX = {"InputMask": 11, "TargetMask": 12, "InputMaskedKspace": 13, "TargetMaskedKspace": 14, "InputKspace": 15, "Kspace": 0, "MaskedKspace": 1, "Target": 2, "SensMap": 3, "SamplingMask": 4, "AcsMask": 5, "Padding": 6, "ScalingFactor": 7, "BodyCoil": 8, "IsSSL": 9}
 LINEAR = {"ToTensor": 0, "CropKspace": 1, "RescaleKspace": 2, "PadKspace": 3, "RandomRotation": 4, "RandomFlip": 5, "RandomReverse": 6, "CompressCoil": 7, "PadCoilDimension": 8}
 COND = {"crop": "c_crop x", "rescale": "c_rescale x", "pad": "c_pad x", "random_rotation_probability > 0.0": "c_rot x", "random_flip_probability > 0.0": "c_flip x", "random_reverse_probability > 0.0": "c_reverse x",
         "padding_eps > 0.0": "c_zero_pad x", "mask_func": "c_mask x", "compress_coils": "c_compress x", "pad_coils": "c_pad_coils x", "estimate_body_coil_image and mask_func is not None": "(c_body x && c_mask x)",
@@ -45,6 +46,8 @@ def _key(node, path):
     t = ast.unparse(node)
     if t in KEYS:
         return KEYS[t]
+    if t in SSL_KEYS:
+        return SSL_KEYS[t]
     _fail("unknown sample key %s" % t, node, path)
 
 
@@ -100,6 +103,11 @@ def _stage(call, path):
         return "SScaling (c_scaling x) (c_percentile x) %s" % _key(_kw(call, "scaling_factor_key"), path)
     if cls == "Normalize":
         return "SNormalize %s [%s]" % (_key(_kw(call, "scaling_factor_key"), path), "; ".join(_key(e, path) for e in _kw(call, "keys_to_normalize").elts))
+    if cls == "RenameKeys":
+        olds, news = call.args[0].elts, call.args[1].elts
+        if len(olds) != len(news):
+            _fail("RenameKeys: lists of different length", call, path)
+        return "SRename [%s]" % "; ".join("(%s, %s)" % (_key(o, path), _key(n, path)) for o, n in zip(olds, news))
     if cls == "ComputeImage":
         if ast.unparse(_kw(call, "type_reconstruction")) != "image_recon_type":
             _fail("ComputeImage: type_reconstruction is not the builder's image_recon_type", call, path)
@@ -173,6 +181,43 @@ def generate(ctx):
     if "mri_transforms += [AddBooleanKeysModule(['is_ssl'], [transforms_type != TransformsType.SUPERVISED])]" not in src:
         _fail("build_mri_transforms: is_ssl flag outside subset", fm, path)
     out += "Definition gen_supervised (x : cfg) : list stage := gen_stages x ++ [SFlag IsSSL].\n"
+    # the self-supervised tail of build_mri_transforms
+    fb = pg.strip_doc(fm.body)
+    ret_idx = [i for i, st in enumerate(fb) if isinstance(st, ast.If) and ast.unparse(st.test) == "transforms_type == TransformsType.SUPERVISED" and ast.unparse(st.body[0]) == "return Compose(mri_transforms)"]
+    if len(ret_idx) != 1 or ast.unparse(fb[-1]) != "return Compose(mri_transforms)":
+        _fail("build_mri_transforms: supervised return / final return outside subset", fm, path)
+    tail = fb[ret_idx[0] + 1 : -1]
+    if not (isinstance(tail[0], ast.Assign) and ast.unparse(tail[0].targets[0]) == "mask_splitter_kwargs" and isinstance(tail[0].value, ast.Dict)):
+        _fail("build_mri_transforms: mask_splitter_kwargs not found", fm, path)
+    kw = {ast.literal_eval(k): ast.unparse(v) for k, v in zip(tail[0].value.keys, tail[0].value.values)}
+    if kw.get("kspace_key") != "KspaceKey.MASKED_KSPACE" or kw.get("use_seed") != "use_seed" or sorted(kw) != ["acs_region", "keep_acs", "kspace_key", "ratio", "use_seed"]:
+        _fail("build_mri_transforms: mask splitter arguments outside subset", tail[0], path)
+    ssl_pieces = []
+    for st in tail[1:]:
+        if not (isinstance(st, ast.AugAssign) and ast.unparse(st.target) == "mri_transforms" and isinstance(st.value, ast.List)):
+            _fail("build_mri_transforms: statement of the self-supervised tail outside subset", st, path)
+        for el in st.value.elts:
+            if isinstance(el, ast.IfExp):
+                alts, node = [], el
+                while isinstance(node, ast.IfExp):
+                    alts.append(node.body)
+                    node = node.orelse
+                alts.append(node)
+                names = sorted(ast.unparse(a.func) for a in alts)
+                if names != ["GaussianMaskSplitter", "HalfMaskSplitterModule", "UniformMaskSplitter"] or not all("mask_splitter_kwargs" in ast.unparse(a) for a in alts):
+                    _fail("build_mri_transforms: the three mask splitters are not built from mask_splitter_kwargs", el, path)
+                ssl_pieces.append("SSplit SamplingMask MaskedKspace AcsMask")
+            else:
+                ssl_pieces.append(_stage(el, path))
+    out += "Definition gen_ssl_tail (x : cfg) : list stage := [%s].\n" % "; ".join(ssl_pieces)
+    # the splitter module: which keys it reads and writes
+    sp, _ = pg.parse_file(ctx.src("direct/ssl/ssl.py"))
+    fwd = ast.unparse(pg.find_def(sp, "MaskSplitter.forward", ctx.src("direct/ssl/ssl.py")))
+    for needle in ("sampling_mask = sample['sampling_mask'].clone()", "kspace = sample[self.kspace_key].clone()", "acs_mask = sample['acs_mask'].clone() if self.keep_acs else None",
+                   "sample[SSLTransformMaskPrefixes.INPUT_ + self.kspace_key], _ = apply_mask(kspace, input_mask)", "sample[SSLTransformMaskPrefixes.TARGET_ + self.kspace_key], _ = apply_mask(kspace, target_mask)",
+                   "sample[SSLTransformMaskPrefixes.INPUT_ + TransformKey.SAMPLING_MASK] = input_mask", "sample[SSLTransformMaskPrefixes.TARGET_ + TransformKey.SAMPLING_MASK] = target_mask"):
+        if needle not in fwd:
+            _fail("MaskSplitter.forward: `%s` not found" % needle, None, ctx.src("direct/ssl/ssl.py"))
     # ComputeZeroPadding: relative threshold
     zp = pg.find_def(tree, "ComputeZeroPadding.__call__", path)
     tests = [n for n in ast.walk(zp) if isinstance(n, ast.Assign) and ast.unparse(n.targets[0]) == "padding" and isinstance(n.value, ast.Call)]
@@ -263,6 +308,7 @@ def gen_cases(ctx):
         c["recon"] = rng.choice(["rss", "complex", "complex_mod", "sense", "sense_mod"]) if c["sens"] else rng.choice(["rss", "rss", "complex", "complex_mod", "sense"])
         c["seed"] = rng.randrange(10**6)
         c["full_mask"] = rng.random() < 0.12
+        c["ssl"] = rng.random() < 0.25
         cases.append(c)
     return cases
 
@@ -290,6 +336,15 @@ def build_pipeline(c, supervised=True, **extra):
               pad_coils=c["coils"] + 2 if c["pad_coils"] else None, scaling_key=c["scaling"], scale_percentile=0.99 if c["percentile"] else None, use_seed=True)
     kw.update(extra)
     return M.build_mri_transforms(**kw)
+
+
+def _ssl_kwargs(c):
+    if not c.get("ssl"):
+        return {}
+    from direct.data import mri_transforms as M
+    from direct.ssl.ssl import MaskSplitterType
+
+    return dict(transforms_type=M.TransformsType.SSL_SSDU, mask_split_ratio=0.4, mask_split_type=MaskSplitterType(c.get("split", "gaussian")), mask_split_keep_acs=bool(c.get("keep_acs")))
 
 
 def raw_sample(c, scale=1.0, name="file_a.h5", slice_no=3):
@@ -344,7 +399,7 @@ def correspond(ctx):
     impls, terms, keep = [], [], []
     for c in cases:
         try:
-            p = build_pipeline(c)
+            p = build_pipeline(c, **_ssl_kwargs(c))
             a = staged(p, raw_sample(c, 1.0))
             b = staged(p, raw_sample(c, 4.0))
             impl = [sorted((KEY_IDX[k], d) for k, d in empirical_degrees(x, y, 4.0).items()) for x, y in zip(a, b)]
@@ -352,14 +407,15 @@ def correspond(ctx):
             impl = ("raises", type(e).__name__, str(e)[:100])
         impls.append(impl)
         keep.append(c)
-        terms.append("deg_trace (gen_supervised %s)" % cfg_term(c))
+        terms.append("deg_trace (%s %s)" % ("gen_ssl" if c["ssl"] else "gen_supervised", cfg_term(c)))
     vals = coqrun.eval_sharded("c08_cases", PRE, terms, ctx.work, gen_dir=ctx.gen_dir, shard=200)
     ctx._c08 = []
     for c, im, mv in zip(keep, impls, vals):
         ok, trace = mv[0], mv[1]
         corr.dist("scaling_key", str(c["scaling"]))
         corr.dist("mask", c["mask"])
-        short = {k: c[k] for k in FLAGS + ["scaling", "percentile", "coils", "h", "w", "three", "sens_type", "recon", "seed"]}
+        short = {k: c[k] for k in FLAGS + ["scaling", "percentile", "coils", "h", "w", "three", "sens_type", "recon", "seed", "ssl"]}
+        corr.dist("pipeline", "ssl" if c["ssl"] else "supervised")
         if isinstance(im, tuple):
             # the real pipeline also rejects configurations for reasons the model does not know (geometry of rescale / pad
             # for this sample, SVD of a rank-deficient matrix): counted, not compared; a model failure must be an impl failure
